@@ -31,6 +31,7 @@ import (
 	"net"
 	"os"
 	"path/filepath"
+	"runtime"
 	"sort"
 	"strings"
 	"sync"
@@ -265,15 +266,16 @@ type vfc12Msg struct {
 }
 
 type vfc12Round struct {
-	name      string
-	cand      int
-	start     int
-	end       int // -1 while running
-	result    string
-	id        uint64
-	host      string
-	acceptors map[int]bool // members that accepted its commit
-	voteOK    map[int]bool // members whose vote answer the candidate received
+	name       string
+	cand       int
+	start      int
+	end        int // -1 while running
+	result     string
+	id         uint64
+	host       string
+	acceptors  map[int]bool // members that accepted its commit
+	renumbered bool         // its commit phase carried another number than its proposal phase
+	voteOK     map[int]bool // members whose vote answer the candidate received
 }
 
 type vfc12Cand struct {
@@ -320,12 +322,13 @@ type vfc12Exec struct {
 	fail     string // watchdog / harness trouble: the execution is inconclusive
 	wg       sync.WaitGroup
 
-	arrived map[[2]int]int    // (node, gen) -> CALL frames received from it
-	sig     map[string]int    // signal counters
-	stats   map[string]int64  // per-execution counters
-	vectors map[uint64]bool   // distinct (proposalId, commitId) vectors
+	arrived map[[2]int]int   // (node, gen) -> CALL frames received from it
+	sig     map[string]int   // signal counters
+	stats   map[string]int64 // per-execution counters
+	vectors map[uint64]bool  // distinct (proposalId, commitId) vectors
 	noLog   bool
-	given   int               // actions of the caller's list that ran (the rest of the trace is the finishing policy)
+	slocks  []*SLock // every SLock made for this execution (their background goroutine is stopped in close)
+	given   int      // actions of the caller's list that ran (the rest of the trace is the finishing policy)
 	// phase that returned during the current step (labels the cause of a regress)
 	retNode, retPhase int
 }
@@ -486,7 +489,9 @@ func vfc12Prepare(cfg *vfc12Cfg, dir string) error {
 		}
 		m.gid, m.version, m.vertime = "76657269662d633132000000000000ff", 7, 1700000000000
 		m.voter.commitId = mc.Commit
-		if err := m.store.Save(m); err != nil {
+		err := m.store.Save(m)
+		vfc12StopSLock(s)
+		if err != nil {
 			return err
 		}
 	}
@@ -559,6 +564,7 @@ func vfc12NewExec(cfg *vfc12Cfg, dir string) (*vfc12Exec, error) {
 func (ex *vfc12Exec) boot(n *vfc12Node) error {
 	lg := &vfc12Logger{Logger: vfGetLogger(), ex: ex, node: n.i, gen: n.gen}
 	n.slock = NewSLock(vfc12ServerConfig(n.dir), lg)
+	ex.slocks = append(ex.slocks, n.slock)
 	n.mgr = NewArbiterManager(n.slock, "vf")
 	n.slock.arbiterManager = n.mgr
 	n.mgr.store.filename = filepath.Join(n.dir, "meta.pb")
@@ -706,6 +712,16 @@ func (ex *vfc12Exec) close() {
 		}
 	}
 	ex.wg.Wait()
+	for _, s := range ex.slocks {
+		vfc12StopSLock(s)
+	}
+}
+
+// NewSLock starts one goroutine (TransparencyManager.Run); stop it.
+func vfc12StopSLock(s *SLock) {
+	if s != nil && s.replicationManager != nil && s.replicationManager.transparencyManager != nil {
+		_ = s.replicationManager.transparencyManager.Close()
+	}
 }
 
 // ------------------------------------------------------------------ actions
@@ -932,6 +948,11 @@ func (ex *vfc12Exec) startPhase(c *vfc12Cand) {
 			ex.stats["self_proposals_refused"]++
 		}
 	case vfc12Commit:
+		if v.proposalIndex != c.cur.id {
+			c.cur.renumbered = true
+			ex.stats["commit_number_differs_from_proposed"]++
+			ex.logf("  n%d proposed under number %d and asks for commits under number %d", n.i, c.cur.id, v.proposalIndex)
+		}
 		ex.logf("  n%d self commit id=%d: %v", n.i, v.proposalIndex, selfOK)
 		if selfOK {
 			ex.noteCommit(n, c.cur, v.proposalIndex)
@@ -1300,6 +1321,8 @@ func (ex *vfc12Exec) checkWin(r *vfc12Round) {
 			}
 		}
 		switch {
+		case (o.renumbered || r.renumbered) && !causes["restart"] && !causes["own-docommit-failed"]:
+			cause = "commit-number-differs-from-proposed-number"
 		case len(both) == 0:
 			cause = "no-common-acceptor"
 		case causes["restart"] && len(causes) == 1:
@@ -1459,7 +1482,7 @@ func (ex *vfc12Exec) stateKey() string {
 		fmt.Fprintf(&sb, "M%s=%s|", m.name, e)
 	}
 	for _, r := range ex.rounds {
-		fmt.Fprintf(&sb, "R%s:%s,%v,%v", r.name, r.result, vfc12Keys(r.acceptors), vfc12Keys(r.voteOK))
+		fmt.Fprintf(&sb, "R%s:%s,%v,%v,%v", r.name, r.result, vfc12Keys(r.acceptors), vfc12Keys(r.voteOK), r.renumbered)
 		for _, o := range ex.rounds {
 			if o != r {
 				fmt.Fprintf(&sb, ",%v", vfc12Overlap(r, o))
@@ -1867,18 +1890,18 @@ func vfc12DFSCfg(seed int64, k int) *vfc12Cfg {
 // ------------------------------------------------------------------ test entry
 
 type vfc12Replay struct {
-	Case      int        `json:"case"`
-	Seed      int64      `json:"seed"`
-	Tier      string     `json:"tier"`
-	Property  string     `json:"property"`
-	Mode      string     `json:"mode"`
-	Signature string     `json:"signature"`
-	Clause    string     `json:"clause"`
-	Detail    string     `json:"detail"`
-	Cfg       *vfc12Cfg  `json:"config"`
-	Actions   []string   `json:"actions"`  // minimised schedule; re-executed by --replay
-	Full      []string   `json:"full_schedule"`
-	History   []string   `json:"history"`
+	Case      int       `json:"case"`
+	Seed      int64     `json:"seed"`
+	Tier      string    `json:"tier"`
+	Property  string    `json:"property"`
+	Mode      string    `json:"mode"`
+	Signature string    `json:"signature"`
+	Clause    string    `json:"clause"`
+	Detail    string    `json:"detail"`
+	Cfg       *vfc12Cfg `json:"config"`
+	Actions   []string  `json:"actions"` // minimised schedule; re-executed by --replay
+	Full      []string  `json:"full_schedule"`
+	History   []string  `json:"history"`
 }
 
 func vfc12Report(env *vfEnv, part *vfPart, i int, mode string, cfg *vfc12Cfg, dir string, out *vfc12Outcome) {
@@ -1930,7 +1953,7 @@ func vfc12Absorb(part *vfPart, prefix string, out *vfc12Outcome) {
 
 func vfc12DFSCount(env *vfEnv) int {
 	if env.Thorough() {
-		return 8
+		return 24
 	}
 	return 4
 }
@@ -2005,6 +2028,16 @@ func vfc12Case(env *vfEnv, part *vfPart, i int) {
 		}
 		return
 	}
+	if os.Getenv("VERIF_C12_DEBUG") != "" && i%500 == 4 {
+		var ms runtime.MemStats
+		runtime.GC()
+		runtime.ReadMemStats(&ms)
+		fmt.Printf("DEBUG case %d goroutines=%d heap=%dMB\n", i, runtime.NumGoroutine(), ms.HeapAlloc>>20)
+		if os.Getenv("VERIF_C12_DEBUG") == "stacks" && i > 2000 {
+			buf := make([]byte, 1<<20)
+			fmt.Printf("%s\n", buf[:runtime.Stack(buf, true)])
+		}
+	}
 	rng := vfCaseRand(env.Seed, "C12", i)
 	nm := rng.PickInt([]int{3, 3, 4, 4, 5, 5, 5})
 	nc := rng.PickInt([]int{2, 2, 3})
@@ -2037,8 +2070,16 @@ func TestVerif_C12(t *testing.T) {
 	start := time.Now()
 	env := vfGetEnv("C12")
 	vfContinueAfterPanic = true
-	n := vfc12DFSCount(env) + env.N(12000, 100000)
-	part := vfRunSharded(t, env, "TestVerif_C12", n, vfNumCPU(), func(part *vfPart, i int) {
+	if env.Shard >= 0 {
+		// a schedule is one chain of goroutine hand-offs: more threads per shard only add scheduler and GC overhead on the shared machine
+		runtime.GOMAXPROCS(1)
+	}
+	n := vfc12DFSCount(env) + env.N(12000, 200000)
+	shards := vfNumCPU()
+	if shards > 8 {
+		shards = 8 // the wall time is set by the enumerations (one shard each); more shards only load the shared machine
+	}
+	part := vfRunSharded(t, env, "TestVerif_C12", n, shards, func(part *vfPart, i int) {
 		vfc12Case(env, part, i)
 	})
 	if part == nil {
@@ -2064,5 +2105,8 @@ func TestVerif_C12(t *testing.T) {
 			cov["distinct_schedules"] = len(p.Distinct["schedules"])
 			cov["distinct_state_vectors"] = len(p.Distinct["state_vectors"])
 		}}
+	if env.Replay != "" {
+		spec.Floors = nil
+	}
 	vfFinish(t, env, spec, part, start)
 }
